@@ -19,25 +19,28 @@ var (
 
 // obsState is what the harness can see of the host while no handler holds the contract lock.
 type obsState struct {
-	Num     int64            `json:"num"`
-	Rout    int64            `json:"rout"`
-	Hout    int64            `json:"hout"`
-	Missed  int64            `json:"missed"`
-	Coll    int64            `json:"coll"`
-	Size    int              `json:"size"`
-	Cap     int              `json:"cap"`
-	Roots   []int            `json:"roots"`
-	Ph      int              `json:"ph"`
-	Eh      int              `json:"eh"`
-	Rk      string           `json:"rk"`
-	Hk      string           `json:"hk"`
-	Match   bool             `json:"match"`
-	Sigs    bool             `json:"sigs"`
-	Exact   bool             `json:"exact"`
-	Chain   bool             `json:"chain"`
-	Renewed bool             `json:"renewed"`
-	Acct    map[string]int64 `json:"acct"`
-	Pool    map[string]int64 `json:"pool"`
+	Num     int64               `json:"num"`
+	Rout    int64               `json:"rout"`
+	Hout    int64               `json:"hout"`
+	Missed  int64               `json:"missed"`
+	Coll    int64               `json:"coll"`
+	Size    int                 `json:"size"`
+	Cap     int                 `json:"cap"`
+	Roots   []int               `json:"roots"`
+	Ph      int                 `json:"ph"`
+	Eh      int                 `json:"eh"`
+	Dur     int                 `json:"dur"`
+	Rk      string              `json:"rk"`
+	Hk      string              `json:"hk"`
+	Match   bool                `json:"match"`
+	Sigs    bool                `json:"sigs"`
+	Exact   bool                `json:"exact"`
+	Chain   bool                `json:"chain"`
+	Renewed bool                `json:"renewed"`
+	Others  bool                `json:"others"` // every contract this one was renewed from is exactly as frozen
+	Att     map[string][]string `json:"att"`    // account -> attached pools (verif hook of the reference contractor)
+	Acct    map[string]int64    `json:"acct"`
+	Pool    map[string]int64    `json:"pool"`
 }
 
 // tracer records one NDJSON event per spec action performed on the real host (Leg T).
@@ -67,7 +70,7 @@ func (tr *tracer) keyName(pk types.PublicKey) string {
 // describe converts a (revision, roots) pair into the scaled observation.
 func (tr *tracer) describe(rev types.V2FileContract, roots []types.Hash256, renewed bool, balances bool) obsState {
 	a := tr.ad
-	o := obsState{Renewed: renewed, Exact: true, Acct: map[string]int64{}, Pool: map[string]int64{}}
+	o := obsState{Renewed: renewed, Exact: true, Acct: map[string]int64{}, Pool: map[string]int64{}, Att: map[string][]string{}}
 	sc := func(c types.Currency) int64 {
 		n, ok := Scale(c)
 		if !ok {
@@ -83,6 +86,9 @@ func (tr *tracer) describe(rev types.V2FileContract, roots []types.Hash256, rene
 	}
 	o.Roots = a.IDs(roots)
 	o.Ph, o.Eh = int(rev.ProofHeight), int(rev.ExpirationHeight)
+	o.Dur = int(rev.ExpirationHeight) - int(tr.e.Prices.TipHeight)
+	o.Others = len(a.AuditOthers()) == 0
+	o.Att = a.Attachments(TraceAccounts)
 	o.Rk, o.Hk = tr.keyName(rev.RenterPublicKey), tr.keyName(rev.HostPublicKey)
 	o.Match = proto4.MetaRoot(roots) == rev.FileMerkleRoot && uint64(len(roots))*proto4.SectorSize == rev.Filesize
 	o.Sigs = SigsOK(rev)
@@ -112,7 +118,7 @@ func (tr *tracer) describe(rev types.V2FileContract, roots []types.Hash256, rene
 func (tr *tracer) observe() (obsState, bool) {
 	rs, unlock, err := tr.e.EC.LockV2Contract(tr.ad.K.ID)
 	if err != nil {
-		return obsState{Roots: []int{}, Acct: map[string]int64{}, Pool: map[string]int64{}}, false
+		return obsState{Roots: []int{}, Acct: map[string]int64{}, Pool: map[string]int64{}, Att: map[string][]string{}}, false
 	}
 	roots := cloneRoots(rs.Roots)
 	unlock()
@@ -120,10 +126,27 @@ func (tr *tracer) observe() (obsState, bool) {
 }
 
 func (tr *tracer) flag(o obsState) {
-	if !(o.Match && o.Sigs && o.Exact && o.Chain) && !tr.bad {
+	if !(o.Match && o.Sigs && o.Exact && o.Chain && o.Others) && !tr.bad {
 		tr.bad = true
-		tr.why = fmt.Sprintf("observation flags match=%v sigs=%v exact=%v chain=%v", o.Match, o.Sigs, o.Exact, o.Chain)
+		tr.why = fmt.Sprintf("observation flags match=%v sigs=%v exact=%v chain=%v others=%v", o.Match, o.Sigs, o.Exact, o.Chain, o.Others)
 	}
+}
+
+// renewalFields: the host's part of the renewal (valid host payout, total collateral, heights,
+// duration) as handed to Contractor.RenewV2Contract during this step; zeros if it was not called.
+func (tr *tracer) renewalFields(out Outcome) map[string]int64 {
+	x := map[string]int64{"hout": 0, "coll": 0, "ph": 0, "eh": 0, "dur": 1}
+	if nc := tr.ad.LastRenewal; nc != nil {
+		h, ok1 := Scale(nc.HostOutput.Value)
+		c, ok2 := Scale(nc.TotalCollateral)
+		if !ok1 || !ok2 {
+			tr.ad.Issues = append(tr.ad.Issues, "renew: new contract's payouts are not whole units")
+		}
+		x["hout"], x["coll"], x["ph"], x["eh"] = h, c, int64(nc.ProofHeight), int64(nc.ExpirationHeight)
+		x["dur"] = int64(nc.ExpirationHeight) - int64(tr.e.Prices.TipHeight)
+		tr.ad.LastRenewal = nil
+	}
+	return x
 }
 
 // reset starts a new trace: the Reset event installs the real host's current state.
@@ -187,8 +210,11 @@ func (tr *tracer) do(act Act) Outcome {
 		ev["idx"], ev["pf"], ev["cf"] = orEmpty(act.Idx), act.Pf, act.Cf
 	case "BeginAppend":
 		ev["secs"], ev["pf"], ev["cf"] = orEmpty(act.Secs), act.Pf, act.Cf
-	case "Round2Free", "Round2Append", "Round2Repl", "Round2Renew":
+	case "Round2Free", "Round2Append", "Round2Repl":
 		ev["sf"] = act.Sf
+	case "Round2Renew":
+		ev["sf"] = act.Sf
+		ev["x"] = tr.renewalFields(out)
 	case "BeginRoots":
 		ev["off"], ev["len"], ev["pf"], ev["sf"] = act.Off, act.Len, act.Pf, act.Sf
 	case "BeginFund":
@@ -207,7 +233,7 @@ func (tr *tracer) do(act Act) Outcome {
 	case "BeginBalance":
 		ev["a"] = act.A
 	case "BeginRenew":
-		ev["kind"], ev["pf"], ev["cf"], ev["rf"] = act.Kind, act.Pf, act.Cf, act.Rf
+		ev["kind"], ev["pf"], ev["cf"], ev["rf"], ev["na"], ev["nc"] = act.Kind, act.Pf, act.Cf, act.Rf, act.NA, act.NC
 	}
 	o, ok := tr.observe()
 	ev["obs"], ev["st"] = ok, o
@@ -225,6 +251,8 @@ func (tr *tracer) do(act Act) Outcome {
 			ev["hint"] = "exact"
 		case !o.Chain:
 			ev["hint"] = "chain"
+		case !o.Others:
+			ev["hint"] = "replaced"
 		}
 	}
 	tr.hist = append(tr.hist, hx.JSON(act))
